@@ -310,9 +310,10 @@ PROPS = {
                 "same handlers (harness op SEQ); SPECNETTEXT compares the probed server texts with the Lean SeqServer model (C08 text model), "
                 "JUDGENETSCHED runs the Lean process-network model under 6-12 pseudo-random schedules with capacities 1-3 and the "
                 "generated ones and judges the projections against the sequential run. " + TEXT_RULE,
-        "unproved_parts": ["net_refines_seq (for every schedule the response projection and the document-related projection of the process "
-                           "network equal the sequential run; no deadlock) is evaluated on the model under pseudo-random schedules "
-                           "(JUDGENETSCHED), not yet a theorem",
+        "unproved_parts": ["net_refines_seq / net_prefix / net_no_deadlock / net_step_decreases ARE theorems (every input, schedule, "
+                           "capacity >= 1); JUDGENETSCHED additionally runs the executable network model under pseudo-random schedules. "
+                           "The model of the three tasks (one statement per step, the order of sends inside each task) is hand-written from "
+                           "server.rs/document.rs/io.rs and tied by the binary runs only",
                            "tokio mpsc FIFO/back-pressure and the multi-threaded runtime are assumptions exercised only by the binary runs"],
     },
     "C19": {
